@@ -16,7 +16,8 @@ ASSUMPTIONS = ["user callables answer as a function of the site (A-oracle)",
 NEIGHBOURS = [{"from": "C04", "limit": 400, "why": "inherited precondition groups as built by the real metaclass decide whether the body is entered"},
               {"from": "C05", "limit": 400, "why": "the arguments the preconditions are decided on are those of the call"},
               {"from": "C10", "limit": 400, "why": "calls made from a running body are ordinary checked calls"},
-              {"from": "C18", "tags": ["hist"], "limit": 700, "why": "callables below foreign functools.wraps decorators and late class decorations keep their preconditions"}]
+              {"from": "C18", "tags": ["hist"], "limit": 700, "why": "callables below foreign functools.wraps decorators and late class decorations keep their preconditions"},
+              {"from": "C11", "limit": 600, "why": "after any outcome of a call - also a violation whose error is a BaseException - the next call is gated again"}]
 
 
 run_directed = directed.run
